@@ -59,6 +59,7 @@ fn main() {
         "C17" => props::c17::run(&mut ctx),
         "C18" => props::c18::run(&mut ctx),
         "C19" => props::c19::run(&mut ctx),
+        "C20" => props::c20::run(&mut ctx),
         x => { eprintln!("no harness for {x}"); std::process::exit(2); }
     }
     let mut j = ctx.ev.to_json();
